@@ -163,6 +163,10 @@ class Gen:
             t = self.mk(kind, frm, to=to, amount=str(r.choice([0, 0, 1000])), plen=r.choice([1, 30, 300]),
                         fddeny=r.random() < 0.15)
             t["vm"] = self.vm_script(frm, to)
+        elif kind == "multicall":
+            t = self.mk(kind, frm, plen=r.choice([1, 30, 300]), gaslimit=r.choice([0, 0, 5000000]))
+            t["vm"] = self.vm_script(frm, frm)
+            t["vm"]["writes"] = []
         elif kind == "deploy":
             cid = self.next_cid
             self.next_cid += 1
@@ -769,8 +773,7 @@ def corpus_cases(pid):
                                                           T("votebp", 11, 1)]},
                   {"no": 10 + D, "validator": False, "txs": [T("votebp", 10, 3), T("unstake", 10, 4, amount=str(10000 * AERGO))]},
                   {"no": 10 + 2 * D - 1, "validator": False, "txs": [T("unstake", 10, 4, amount=str(10000 * AERGO))]},
-                  {"no": 10 + 2 * D, "validator": True, "txs": [T("unstake", 10, 4, amount=str(4000 * AERGO) ), T("unstake", 10, 4, amount=str(10000 * AERGO)),
-                                                                 T("votebp", 10, 5)]}], "votes")
+                  {"no": 10 + 2 * D, "validator": True, "txs": [T("unstake", 10, 4, amount=str(10000 * AERGO)), T("votebp", 10, 5)]}], "votes")
     # aergo.enterprise (oracle for the model): first appendAdmin succeeds, a non-admin then fails with a
     # governance RUNTIME error (ERROR receipt, fee 0, nonce advances), the failed tx replayed is rejected
     entfail = T("entappend", 11, 1, dest=11)
@@ -889,11 +892,18 @@ def run_check(ctx, pid):
     for i in range(nrand):
         mode = "chain" if i % chain_every == chain_every - 1 else "exec"
         cases.append(gen_case(ctx.rng, len(cases) + 1, mode, FOCUS[pid], maxtx=40))
+    # MULTICALL (receiver = the sender OBJECT, transient contract state) is outside the Ledger model: a few
+    # extra cases run on the implementation only (all direct predicates apply, no model comparison)
+    for i in range(4 if quick else 60):
+        c = gen_case(ctx.rng, len(cases) + 1, "exec" if i % 2 == 0 else "chain", dict(FOCUS[pid], weights=dict(FOCUS[pid].get("weights", {}), multicall=14)), maxtx=20)
+        c["tag"] = "nomodel"
+        cases.append(c)
     obs = run_engine(ctx, binp, cases, "cases")
     fill_enterprise_oracle(cases, obs)
+    modelled = [c for c in cases if c.get("tag") != "nomodel"]
     plain = [c for c in cases if c.get("tag") != "f23"]
-    mod = eval_model(ctx, cases, obs, fixed, "m")
-    bad = [c for c in cases if not compare_chk(go_vectors(c, obs[c["id"]]), mod[c["id"]])]
+    mod = eval_model(ctx, modelled, obs, fixed, "m")
+    bad = [c for c in modelled if not compare_chk(go_vectors(c, obs[c["id"]]), mod[c["id"]])]
     modf = eval_model(ctx, bad, obs, fixed, "mfull", full=True) if bad else {}
     corr = []
     pred = []
@@ -912,7 +922,8 @@ def run_check(ctx, pid):
                                  {"diff": d})))
             else:
                 corr.append((c, d))
-    st = stats(cases, obs)
+    st = stats(modelled, obs)
+    st["implementation_only_cases(multicall)"] = len(cases) - len(modelled)
     ctx.cov["evaluations"] = st["txs"] + st["blocks"]
     ctx.cov["traces_validated_against_impl"] = st["txs"] + st["blocks"]
     ctx.cov["distinct_nontrivial"] = st["distinct_classes"]
